@@ -4,6 +4,7 @@ usage: mutprep.py <property id> <tag> [--compiler]"""
 import json, os, subprocess, sys, shutil
 prop_id, tag = sys.argv[1], sys.argv[2]
 compiler = "--compiler" in sys.argv
+round2 = "--round2" in sys.argv
 wt = "/tmp/mut-%s" % tag
 out = "/tmp/mut-%s-out" % tag
 if not os.path.exists(wt):
@@ -12,6 +13,19 @@ os.makedirs(out, exist_ok=True)
 if compiler and not os.path.exists(os.path.join(wt, "target")):
     subprocess.run(["cp", "-r", "/verif/build/t-pavexc", os.path.join(wt, "target")], check=True)
 p = next(json.loads(l) for l in open("/verif/properties.jsonl") if json.loads(l)["id"] == prop_id)
+avoid = ""
+if round2:
+    import glob
+    lines = []
+    for mf in sorted(glob.glob("/verif/seeded/%s-*/meta.json" % prop_id)):
+        try:
+            mm = json.load(open(mf))
+        except Exception:
+            continue
+        lines.append("* %s: %s" % (", ".join(mm.get("files_changed", []))[:160], (mm.get("summary") or "")[:260].replace("\n", " ")))
+    if lines:
+        avoid = ("\n## Already produced by other evaluators (do NOT repeat these: pick different code sites AND different mechanisms; "
+                 "prefer areas of the anchored code, features and kinds of input that this list does not touch)\n\n" + "\n".join(lines) + "\n")
 text = """You are helping to evaluate how well a verification effort can detect regressions in the Rust project `LukeMathWalker/pavex` (a backend framework whose compiler `pavexc` analyses rustdoc JSON of user blueprints and generates server code; plus a runtime: server, extractors, sessions, config).
 
 You have your OWN scratch git worktree of the repository at `%(wt)s` (HEAD = the current reference tree). Work ONLY inside `%(wt)s` and `%(out)s`. Do NOT read, list or touch `/verif` or `/repo` (other people's work lives there; your result must be independent of it). No network: always `cargo ... --offline`; use `CARGO_TARGET_DIR=%(wt)s/target` and at most `-j 6` (`CARGO_BUILD_JOBS=6`); other jobs share the machine.
@@ -43,11 +57,12 @@ Aim for **2 to 3 different mutants** (different mechanisms / different code site
     %(out)s/m2/...
 
 Between mutants reset your worktree (`git -C %(wt)s checkout -- . && git -C %(wt)s clean -fd -e target`). Leave the worktree clean (no applied patch) at the end. Keep demos small and self-contained (they may depend on the repository crates by absolute path `%(wt)s/...`; I will rewrite that path when I replay them).
-%(extra)s
+%(extra)s%(avoid)s
 Final message: list the mutants with one paragraph each (what changed, why it breaks the property, what it needs to manifest, how the demo shows it, which tests you ran).""" % {
     "wt": wt, "out": out, "id": p["id"], "title": p["title"], "statement": p["statement"], "qtext": p["quantifier"]["text"],
     "why": p["why_tests_cant"], "files": ", ".join(p["anchors"]["files"]),
     "mech": "; ".join("%s (%s)" % (m.get("name"), m.get("where")) for m in p["anchors"]["mechanism"]),
+    "avoid": avoid,
     "extra": ("\n## Running the compiler here\n\nRead `/tmp/pavexc-kit/README.md` first: it explains how to run `pavexc` offline in this sandbox (rustup shim, docs toolchain, warm docs cache, a template workspace with an example application and a driver that boots the generated server). `%s/target` already holds a warm build cache of the compiler's dependencies: build with `cd %s && CARGO_TARGET_DIR=%s/target cargo build --offline -p pavexc_cli` (about 1-2 minutes the first time). For this property the demonstration will typically be: an application crate + blueprint, the command line that runs pavexc on it, and what is observed (exit status / diagnostics / `cargo check` of the generated crate / the running server's behaviour) with and without your change.\n" % (wt, wt, wt)) if compiler else "",
 }
 open(os.path.join(out, "PROMPT.txt"), "w").write(text)
